@@ -16,7 +16,7 @@ META = {
     "rule": (
         "seeded random histories of 2-5 runner generations (a new ServiceRunner each, or - 30 % - the same instance accepting again); each generation: a payload population (none / "
         "sleeping and spinning coroutines / 100-200 sleeping coroutines / 30-240 services being created by 1-3 threads / blocked threads / trio payloads that keep calling execute(flavour=asyncio) / 1-3 submitter threads adopting payloads "
-        "concurrently; before a third of the shutdowns 1-2 coroutine payloads that answer their cancellation by raising or by returning a value), 0-3 concurrent accept() attempts by other runners while it runs, accept_delay "
+        "concurrently; before a third of the shutdowns 1-2 coroutine payloads that answer their cancellation by raising or by returning a value), 0-3 concurrent accept() attempts by other runners while it runs (half of them shut the rejected runner down afterwards, as a try/finally would), accept_delay "
         "0-0.3 s, and an ending in {shutdown from an outside thread, from a thread payload, from a worker thread of a trio / asyncio payload that waits for it, two to eight "
         "concurrent shutdowns (staggered by 0-10 ms, or released by a barrier), SIGINT to the main thread, KeyboardInterrupt raised in an asyncio / thread / "
         "trio payload, Exception failure, orphaned return, BaseException failure, shutdown racing a failing "
@@ -101,7 +101,7 @@ def gen_generation(rnd, index, ending):
             script.append(["thread", ops])
     n_second = rnd.choice([0, 0, 1, 2, 3])
     for k in range(n_second):
-        script.append(["thread", [["second_accept"]]])
+        script.append(["thread", [["second_accept", "cleanup"] if rnd.random() < 0.5 else ["second_accept"]]])
         script.append(["wait_event", "raised", None, 0.5])
     if n_second:
         script.append(["sleep", 0.05])
@@ -320,6 +320,14 @@ def judge(case, run, result):
                              % (g, len(seconds_called) - len(seconds_raised), len(seconds_called)), None))
         elif seconds_called:
             result.count("concurrent_accepts_rejected", len(seconds_raised))
+            for e in run.of("raised", gen=g, op="shutdown-of-rejected-runner"):
+                problems.append(("generation %d: shutdown() of a runner whose accept had been rejected raised %s(%s)" % (g, e["exc"], e["msg"]), None))
+            if run.of("rejected-runner-shut-down", gen=g):
+                result.count("rejected_runners_shut_down_beside_the_active_one")
+                first_stop = run.first("call", gen=g, op="shutdown") or run.first("fail", gen=g) or run.first("mark", gen=g)
+                if ended is not None and (first_stop is None or ended["seq"] < first_stop["seq"]):
+                    problems.append(("generation %d: the active runner's accept ended (%s) before anybody stopped it - after a rejected runner was shut down"
+                                     % (g, ended.get("outcome")), None))
             stalled = [e for e in run.of("wait-timeout", gen=g) if e.get("awaited") == ["beat", "heart"]]
             if stalled:
                 problems.append(("generation %d: the active runner's heartbeat stopped after a rejected concurrent accept" % g, None))
@@ -407,7 +415,7 @@ def run_shard(spec):
 
 def finish(total, tier):
     need = ["histories_completed", "polling_loops_checked", "restarts_of_the_same_runner_instance", "concurrent_accepts_rejected", "shutdown_calls_returned", "race_outcome_returned", "forced_late_stop_schedules_checked",
-            "endings_with_trio_payloads_calling_into_asyncio", "endings_with_100_to_200_sleeping_coroutines", "endings_while_services_are_being_created", "generations_with_accept_delay_0", "shutdowns_with_asyncio_payload_failing_on_cancellation", "shutdowns_with_trio_payload_failing_on_cancellation"]
+            "endings_with_trio_payloads_calling_into_asyncio", "rejected_runners_shut_down_beside_the_active_one", "endings_with_100_to_200_sleeping_coroutines", "endings_while_services_are_being_created", "generations_with_accept_delay_0", "shutdowns_with_asyncio_payload_failing_on_cancellation", "shutdowns_with_trio_payload_failing_on_cancellation"]
     need += ["ending_" + e for e in ENDINGS] + ["restarts_after_" + e for e in ENDINGS]
     for name in need:
         if not total.counters.get(name) and not total.violations:
